@@ -33,3 +33,46 @@ func (v *VerifACLs) Allowed(principal, host, name string, rt kmsg.ACLResourceTyp
 func (v *VerifACLs) AnyAllowed(principal, host string, rt kmsg.ACLResourceType, op kmsg.ACLOperation) bool {
 	return v.a.anyAllowed(principal, host, rt, op)
 }
+
+// VerifAssignMember is one KIP-848 member for VerifServerAssign.
+type VerifAssignMember struct {
+	ID     string
+	Topics []string
+	Target map[string][]int32 // current target assignment by topic name
+}
+
+// VerifServerAssign runs the server-side assignor ("uniform" or "range")
+// through group.computeTargetAssignment and returns member => topic => partitions.
+func VerifServerAssign(assignor string, topics map[string]int32, members []VerifAssignMember) map[string]map[string][]int32 {
+	g := &group{assignorName: assignor, consumerMembers: make(map[string]*consumerMember)}
+	snap := make(topicMetaSnap)
+	ids := make(map[string]uuid)
+	names := make(map[uuid]string)
+	for t, n := range topics {
+		var id uuid
+		copy(id[:], "id-"+t)
+		ids[t], names[id] = id, t
+		snap[t] = topicSnapInfo{id: id, partitions: n}
+	}
+	for _, m := range members {
+		cm := &consumerMember{memberID: m.ID, subscribedTopics: m.Topics, targetAssignment: make(map[uuid][]int32)}
+		for t, ps := range m.Target {
+			id, ok := ids[t]
+			if !ok { // a target on a topic that no longer exists
+				copy(id[:], "gone-"+t)
+				names[id] = t
+			}
+			cm.targetAssignment[id] = append([]int32(nil), ps...)
+		}
+		g.consumerMembers[m.ID] = cm
+	}
+	g.computeTargetAssignment(snap)
+	out := make(map[string]map[string][]int32)
+	for mid, m := range g.consumerMembers {
+		out[mid] = make(map[string][]int32)
+		for id, ps := range m.targetAssignment {
+			out[mid][names[id]] = append([]int32(nil), ps...)
+		}
+	}
+	return out
+}
